@@ -328,22 +328,12 @@ def oracle(op, out):
 # ---------------------------------------------------------------------------------------------
 # known findings: trigger predicates are evaluated by the compiled Lean model (driver `T` lines)
 # ---------------------------------------------------------------------------------------------
-_drv = None
-
-
-def _driver():
-    global _drv
-    if _drv is None or _drv.poll() is not None:
-        exe = os.path.join(VERIF, "lean", ".lake", "build", "bin", "drv_midi")
-        _drv = subprocess.Popen([exe], stdin=subprocess.PIPE, stdout=subprocess.PIPE, text=True, bufsize=1)
-    return _drv
-
-
-def _ask(line):
-    d = _driver()
-    d.stdin.write(line + "\n")
-    d.stdin.flush()
-    return d.stdout.readline().strip()
+def _ask(lines):
+    """one run of the compiled model over a few lines (Driver.Common flushes only at exit, so a
+    persistent pipe is not possible)"""
+    exe = os.path.join(VERIF, "lean", ".lake", "build", "bin", "drv_midi")
+    p = subprocess.run([exe], input="\n".join(lines) + "\n", stdout=subprocess.PIPE, text=True, timeout=60)
+    return p.stdout.split("\n")
 
 
 def known(op, impl_out, model_out, defs):
@@ -351,9 +341,10 @@ def known(op, impl_out, model_out, defs):
     if not ids:
         return None
     try:
-        trig = _ask("T " + op)
+        r = _ask(["T " + op, op])
+        trig = r[0]
         if model_out is None:
-            model_out = _ask(op)
+            model_out = r[1]
     except Exception:
         return None
     # the defect-mirroring model must predict exactly the implementation's (wrong) output;
